@@ -17,6 +17,9 @@ T = {
  "C03": ("property-based testing (byte-stream PBT, refint oracle, guard limbs) + libFuzzer in thorough",
          "Generated-input search: every mpn/mpz add/sub/neg/shift/copy entry point is called on generated lengths, limb styles, constructed carry chains and every permitted overlap; results, returned carries and untouched guard limbs are compared with an independent reference bignum under ASan/UBSan. Exploration is the right level: the property quantifies over all inputs and an executable exact oracle exists.",
          "DESIGN.md section 5 C03"),
+ "C10": ("property-based testing (byte-stream PBT, refint two's-complement model) + libFuzzer in thorough",
+         "Generated-input search over the mpz bit functions (all sign combinations, negatives with low zero limbs, -2^k, bit indices at/above the top) and the mpn logical functions; every result is compared with an independent model of the infinitely sign-extended two's-complement string, incl. the 'largest mp_bitcnt_t' answers. Exploration: exact executable oracle for a universally quantified property.",
+         "DESIGN.md section 5 C10"),
 }
 built = [i for i in ids if i in T and os.path.exists(os.path.join(ROOT, "props", i + ".cc")) or os.path.exists(os.path.join(ROOT, "props", i + "_run.py"))]
 checks = []
